@@ -1,6 +1,7 @@
 package sim
 
 import (
+	"bytes"
 	"fmt"
 
 	"github.com/nspcc-dev/dbft"
@@ -86,6 +87,26 @@ func MonC15() *Mon {
 			}
 		},
 		Broadcast: func(n *Node, p Payload) {
+			if p.T == dbft.PreCommitType || p.T == dbft.CommitType {
+				// what the primary commits itself to is the block of its own proposal - also when the (pre-)block object
+				// was built at another moment than the proposal (seeded change C15l: built and cached before it)
+				s, d := get(n), n.D
+				if !s.proposed || !d.IsPrimary() || s.h != p.Ht || s.v != p.V || d.BlockIndex != p.Ht || n.W.Cfg.ShareBoundFrom > 0 {
+					return
+				}
+				hd := vt.Header{Idx: p.Ht, Prev: d.PrevHash, Ts: s.ts, Nonce: s.nonce, TxHashes: s.hashes}
+				ok := true
+				if p.T == dbft.PreCommitType {
+					ok = bytes.Equal(p.Body.(*vt.PreCommit).D, (&vt.PreBlock{Header: hd}).DataFor(n.ID))
+				} else {
+					ok = (&vt.Block{Header: hd, AMEV: n.W.Cfg.AMEVOn(p.Ht)}).Verify(vt.Pub(n.ID), p.Body.(*vt.Commit).Sig) == nil
+				}
+				if !ok {
+					n.W.Fail("C15", fmt.Sprintf("node %d height %d view %d: the primary's own %s is not for the block of its proposal (ts=%d nonce=%d %d txs)", n.ID, p.Ht, p.V, vt.ShortType(p.T), s.ts, s.nonce, len(s.hashes)), "own-block-differs")
+				}
+				n.W.Stat("c15_own_commitment_checked")
+				return
+			}
 			if p.T != dbft.PrepareRequestType {
 				return
 			}
